@@ -1,5 +1,6 @@
 CONSTANTS MaxLen = 4
   MaxBound = 6
+  LongLens = {12, 24}
 INIT Init
 NEXT Next
 INVARIANT LawInRange
